@@ -153,7 +153,8 @@ func buildSession(specs []builderSpec, rng *Rng, issig bool) *Session {
 							h = false
 						}
 					}
-					if h && cred.Attributes[i].BitLen() <= 250 {
+					// an attribute longer than Lm bits is signed as its hash: an inequality about its value is not a supported statement
+					if h && cred.Attributes[i].BitLen() <= int(sp.key.Pk.Params.Lm) && cred.Attributes[i].BitLen() <= 250 {
 						hidden = append(hidden, i)
 					}
 				}
